@@ -116,7 +116,12 @@ extern "C" int h_op(unsigned op, void* tp, void* s1p, void* s2p, unsigned x, uns
       case OP_SCALE: *t *= c; break;
       case OP_DIVIDE: *t /= c; break;
       case OP_EQ: res[0] = (*t==*s1) ? 1u : 0u; break;
-      case OP_TRACE: ext[0] = (*t)*(*s1); break;
+      case OP_TRACE:
+        if(y==1) ext[0] = ((*t)+(*t))*((*s1)+(*s1));        // scalar product of two expressions
+        else if(y==2) ext[0] = (*t)*((*s1)+(*s1));          // vector times expression
+        else if(y==3) ext[0] = iCommutator(*t,*t)*iCommutator(*s1,*s1);
+        else ext[0] = (*t)*(*s1);
+        break;
       case OP_FILL: t->SetAllComponents(c); break;
       case OP_FROMMATRIX: {
         gsl_matrix_complex* m=gsl_matrix_complex_alloc(x,y);
